@@ -70,7 +70,7 @@ pub fn chan_infos(w: &World, chans: &[ChannelId]) -> Vec<ChanInfo> {
 			},
 			reserve_sat: reserve,
 			htlc_minimum_msat: hmin,
-			funding: None,
+			funding: w.chan(*opener, cid).and_then(|c| c.funding_txo).map(|o| (o.txid, o.index)),
 		});
 	}
 	out
@@ -241,6 +241,13 @@ impl CommitmentOracle {
 			}
 			if e.trimmed_sum_msat > 0 {
 				self.saw_trimmed = true;
+				crate::runner::witness("commitment-with-trimmed-htlc");
+			}
+			if e.untrimmed.iter().any(|u| u.0) && e.untrimmed.iter().any(|u| !u.0) {
+				crate::runner::witness("commitment-with-untrimmed-htlcs-both-directions");
+			}
+			if exp.feerate != p.initial_feerate {
+				crate::runner::witness("commitment-after-fee-update");
 			}
 		}
 		self.max_pending_htlcs = self.max_pending_htlcs.max(exp.htlcs.len());
@@ -307,6 +314,9 @@ impl Oracle for CommitmentOracle {
 				Obs::Disconnected { a, b } => {
 					for ci in 0..self.chans.len() {
 						if self.chans[ci].nodes == [*a.min(b), *a.max(b)] {
+							if matches!(self.models[ci].recv[0].last(), Some(Item::Upd(_))) || matches!(self.models[ci].recv[1].last(), Some(Item::Upd(_))) {
+								crate::runner::witness("disconnect-with-uncommitted-updates");
+							}
 							self.models[ci].on_disconnect();
 						}
 					}
@@ -443,7 +453,633 @@ impl Oracle for CommitmentOracle {
 					}
 				}
 			}
-			label.push_str(&format!("u{}", unresolved));
+			crate::runner::witness_n("commitments-checked-against-model", self.checked);
+			self.checked = 0;
+			let fin: Vec<String> = (0..2)
+				.map(|s| self.models[ci].commitment_of(s).map(|m| format!("{}", m.balance_msat[0])).unwrap_or_default())
+				.collect();
+			label.push_str(&format!("u{}b{}c{:?}", unresolved, fin.join("/"), self.models[ci].commits_received));
+		}
+		Ok(label)
+	}
+}
+
+// -------------------------------------------------------------------------------------------------
+/// C05: revoked state is never used; state is never revoked early. Built only from the recording
+/// signer, the persisted update kinds, the wire and the broadcaster.
+pub struct RevocationOracle {
+	pub chans: Vec<ChanInfo>,
+	/// keys_id -> (chan index, side)
+	keys: BTreeMap<(u8, [u8; 32]), (usize, usize)>,
+	/// per (chan, side): holder commitment numbers accepted, with durability flag
+	holder_accepted: BTreeMap<(usize, usize), BTreeMap<u64, bool>>,
+	/// per (chan, side): update id -> holder commitment numbers carried (to mark durable on completion)
+	holder_by_update: BTreeMap<(usize, usize, u64), Vec<u64>>,
+	/// per (chan, side): lowest (newest) own commitment number whose secret was released (revoked: >= this)
+	revoked_from: BTreeMap<(usize, usize), u64>,
+	/// per (chan, side): txid -> number of that side's holder commitments (learnt from the peer's signing)
+	holder_txids: BTreeMap<(usize, usize), BTreeMap<bitcoin::Txid, u64>>,
+	/// per (chan, side): lowest counterparty commitment number whose secret this side has stored
+	cp_revoked_from: BTreeMap<(usize, usize), u64>,
+	/// per (chan, side): last counterparty commitment number signed
+	last_signed_cp: BTreeMap<(usize, usize), u64>,
+	pub require_durable: bool,
+}
+
+impl RevocationOracle {
+	pub fn new(w: &World, chans: Vec<ChanInfo>) -> Self {
+		let mut o = RevocationOracle {
+			chans,
+			keys: BTreeMap::new(),
+			holder_accepted: BTreeMap::new(),
+			holder_by_update: BTreeMap::new(),
+			revoked_from: BTreeMap::new(),
+			holder_txids: BTreeMap::new(),
+			cp_revoked_from: BTreeMap::new(),
+			last_signed_cp: BTreeMap::new(),
+			require_durable: true,
+		};
+		// learn keys_id -> channel and the initial commitments from the set-up observations
+		let setup: Vec<Obs> = w.obs.clone();
+		let _ = o.scan(&setup, true);
+		o
+	}
+	fn side(&self, ci: usize, node: usize) -> Option<usize> {
+		self.chans[ci].nodes.iter().position(|n| *n == node)
+	}
+	fn chan_idx(&self, cid: &ChannelId) -> Option<usize> {
+		self.chans.iter().position(|c| c.cid == *cid)
+	}
+	fn fail(d: String) -> Failure {
+		Failure::new("revocation", d)
+	}
+
+	fn scan(&mut self, obs: &[Obs], setup: bool) -> Result<(), Failure> {
+		for o in obs {
+			match o {
+				Obs::Sig(SigEv::SignCounterpartyCommitment { node, keys_id, info }) => {
+					let n = (*node - b'A') as usize;
+					if !self.keys.contains_key(&(*node, *keys_id)) {
+						if let Some(fo) = info.funding_outpoint {
+							for ci in 0..self.chans.len() {
+								if self.chans[ci].funding == Some(fo) {
+									if let Some(s) = self.side(ci, n) {
+										self.keys.insert((*node, *keys_id), (ci, s));
+									}
+								}
+							}
+						}
+					}
+					let (ci, s) = match self.keys.get(&(*node, *keys_id)) {
+						Some(x) => *x,
+						None => continue,
+					};
+					// the peer's holder commitment with this number has this txid
+					self.holder_txids.entry((ci, 1 - s)).or_default().insert(info.txid, info.number);
+					if info.number == INITIAL_COMMITMENT_NUMBER {
+						self.holder_accepted.entry((ci, 1 - s)).or_default().insert(info.number, true);
+					}
+					let last = self.last_signed_cp.get(&(ci, s)).copied().unwrap_or(INITIAL_COMMITMENT_NUMBER + 1);
+					if !(info.number == last || info.number + 1 == last) {
+						return Err(Self::fail(format!(
+							"node {} signed counterparty commitment number {} after {} (must advance by exactly one)",
+							n,
+							INITIAL_COMMITMENT_NUMBER - info.number,
+							INITIAL_COMMITMENT_NUMBER.wrapping_sub(last) as i64
+						)));
+					}
+					self.last_signed_cp.insert((ci, s), info.number);
+					// at most one earlier counterparty commitment may be unrevoked: m+2 must be revoked
+					if info.number + 2 <= INITIAL_COMMITMENT_NUMBER {
+						let rev = self.cp_revoked_from.get(&(ci, s)).copied().unwrap_or(u64::MAX);
+						if rev > info.number + 2 {
+							return Err(Self::fail(format!(
+								"node {} signed counterparty commitment #{} while #{} is still unrevoked",
+								n,
+								INITIAL_COMMITMENT_NUMBER - info.number,
+								INITIAL_COMMITMENT_NUMBER - (info.number + 2)
+							)));
+						}
+					}
+					if !setup {
+						crate::runner::witness("c05-sign-counterparty");
+					}
+				},
+				Obs::Persist { node, rec } => {
+					let ci = match self.chan_idx(&rec.chan) {
+						Some(c) => c,
+						None => continue,
+					};
+					let s = match self.side(ci, *node) {
+						Some(s) => s,
+						None => continue,
+					};
+					let mut nums = Vec::new();
+					for hc in rec.holder_commits.iter() {
+						let m = self.holder_accepted.entry((ci, s)).or_default();
+						if let Some((&newest, _)) = m.iter().next() {
+							if hc.number + 1 != newest && hc.number != newest {
+								return Err(Self::fail(format!(
+									"node {} holder commitment number jumped from {} to {}",
+									node,
+									INITIAL_COMMITMENT_NUMBER - newest,
+									INITIAL_COMMITMENT_NUMBER - hc.number
+								)));
+							}
+						}
+						m.insert(hc.number, !rec.in_progress);
+						nums.push(hc.number);
+					}
+					if let Some(uid) = rec.update_id {
+						if !nums.is_empty() {
+							self.holder_by_update.insert((ci, s, uid), nums);
+						}
+					}
+					for st in rec.steps.iter() {
+						if st.name == "CommitmentSecret" {
+							if let Some(idx) = st.number {
+								let e = self.cp_revoked_from.entry((ci, s)).or_insert(u64::MAX);
+								if *e != u64::MAX && idx + 1 != *e {
+									return Err(Self::fail(format!("node {} stored counterparty secret {} after {}", node, idx, *e)));
+								}
+								*e = idx;
+							}
+						}
+					}
+				},
+				Obs::Completed { node, chan, id } => {
+					if let Some(ci) = self.chan_idx(chan) {
+						if let Some(s) = self.side(ci, *node) {
+							// completing id implies all lower ids complete too only once they were reported; be exact:
+							if let Some(nums) = self.holder_by_update.get(&(ci, s, *id)).cloned() {
+								for n in nums {
+									self.holder_accepted.entry((ci, s)).or_default().insert(n, true);
+								}
+							}
+						}
+					}
+				},
+				Obs::Restarted { node } => {
+					// whatever the restarted node reloaded is durable by construction
+					for ((_, s), m) in self.holder_accepted.iter_mut() {
+						let _ = s;
+						let _ = node;
+						for (_, d) in m.iter_mut() {
+							*d = true;
+						}
+					}
+				},
+				Obs::Sig(SigEv::ReleaseSecret { node, keys_id, idx }) => {
+					let (ci, s) = match self.keys.get(&(*node, *keys_id)) {
+						Some(x) => *x,
+						None => continue,
+					};
+					if std::env::var("MC_TRACE").is_ok() {
+						eprintln!("      [rev] release ci={} s={} idx={} accepted={:?} keys={:?}", ci, s, INITIAL_COMMITMENT_NUMBER - idx, self.holder_accepted.iter().map(|(k, v)| (k, v.keys().map(|n| INITIAL_COMMITMENT_NUMBER - n).collect::<Vec<_>>())).collect::<Vec<_>>(), self.keys.values().collect::<Vec<_>>());
+					}
+					let acc = self.holder_accepted.entry((ci, s)).or_default();
+					match acc.get(&(idx - 1)) {
+						None => {
+							return Err(Self::fail(format!(
+								"node {} released the secret of its commitment #{} without holding a signed commitment #{}",
+								(*node - b'A'),
+								INITIAL_COMMITMENT_NUMBER - idx,
+								INITIAL_COMMITMENT_NUMBER - (idx - 1)
+							)))
+						},
+						Some(durable) => {
+							if self.require_durable && !*durable {
+								return Err(Self::fail(format!(
+									"node {} released the secret of commitment #{} before the monitor update carrying commitment #{} was durable",
+									(*node - b'A'),
+									INITIAL_COMMITMENT_NUMBER - idx,
+									INITIAL_COMMITMENT_NUMBER - (idx - 1)
+								)));
+							}
+						},
+					}
+					let e = self.revoked_from.entry((ci, s)).or_insert(u64::MAX);
+					*e = (*e).min(*idx);
+					if !setup {
+						crate::runner::witness("c05-release-secret");
+					}
+				},
+				Obs::Sig(SigEv::SignHolderCommitment { node, keys_id, number, .. }) => {
+					if let Some((ci, s)) = self.keys.get(&(*node, *keys_id)) {
+						let rev = self.revoked_from.get(&(*ci, *s)).copied().unwrap_or(u64::MAX);
+						if *number >= rev {
+							return Err(Self::fail(format!(
+								"node {} signed its REVOKED holder commitment #{}",
+								(*node - b'A'),
+								INITIAL_COMMITMENT_NUMBER - number
+							)));
+						}
+						crate::runner::witness("c05-sign-holder-commitment");
+					}
+				},
+				Obs::Sig(SigEv::SignHolderHtlc { node, keys_id, commitment_number, .. }) => {
+					if let Some((ci, s)) = self.keys.get(&(*node, *keys_id)) {
+						let rev = self.revoked_from.get(&(*ci, *s)).copied().unwrap_or(u64::MAX);
+						if *commitment_number >= rev {
+							return Err(Self::fail(format!(
+								"node {} signed an HTLC transaction on its REVOKED commitment #{}",
+								(*node - b'A'),
+								INITIAL_COMMITMENT_NUMBER - commitment_number
+							)));
+						}
+						crate::runner::witness("c05-sign-holder-htlc");
+					}
+				},
+				Obs::Broadcast { node, b } => {
+					for tx in b.txs.iter() {
+						let txid = tx.compute_txid();
+						for ci in 0..self.chans.len() {
+							if let Some(s) = self.side(ci, *node) {
+								let rev = self.revoked_from.get(&(ci, s)).copied().unwrap_or(u64::MAX);
+								if let Some(num) = self.holder_txids.get(&(ci, s)).and_then(|m| m.get(&txid)) {
+									if *num >= rev {
+										return Err(Self::fail(format!(
+											"node {} broadcast its REVOKED commitment #{}",
+											node,
+											INITIAL_COMMITMENT_NUMBER - num
+										)));
+									}
+									crate::runner::witness("c05-broadcast-holder-commitment");
+								}
+								// HTLC transactions spending a revoked holder commitment
+								for inp in tx.input.iter() {
+									if let Some(num) = self.holder_txids.get(&(ci, s)).and_then(|m| m.get(&inp.previous_output.txid)) {
+										if *num >= rev {
+											return Err(Self::fail(format!(
+												"node {} broadcast a transaction spending its REVOKED commitment #{}",
+												node,
+												INITIAL_COMMITMENT_NUMBER - num
+											)));
+										}
+									}
+								}
+							}
+						}
+					}
+				},
+				_ => {},
+			}
+		}
+		Ok(())
+	}
+}
+
+impl Oracle for RevocationOracle {
+	fn name(&self) -> &'static str {
+		"revocation"
+	}
+	fn observe(&mut self, _w: &World, obs: &[Obs]) -> Result<(), Failure> {
+		self.scan(obs, false)
+	}
+}
+
+// -------------------------------------------------------------------------------------------------
+/// C09: update ids gap-free; nothing that depends on an update is released before it (and all
+/// earlier ones) completed; no commitment_signed / revoke_and_ack while an update is outstanding.
+pub struct PersistOrderOracle {
+	pub chans: Vec<ChanInfo>,
+	/// (node, chan) -> last update id handed to Persist
+	last_id: BTreeMap<(usize, usize), u64>,
+	/// (node, chan) -> ids answered InProgress and not yet completed
+	outstanding: BTreeMap<(usize, usize), Vec<u64>>,
+	/// (node, chan) -> update id that carried LatestCounterpartyCommitment(number)
+	cp_commit_update: BTreeMap<(usize, usize, u64), u64>,
+	/// (node, chan) -> update id that carried LatestHolderCommitment(number)
+	holder_commit_update: BTreeMap<(usize, usize, u64), u64>,
+	/// (node, chan, preimage) -> update id carrying PaymentPreimage
+	preimage_update: BTreeMap<(usize, usize, [u8; 32]), u64>,
+	/// (node, chan) -> update id carrying CommitmentSecret(idx) (the peer's revocation we stored)
+	secret_update: BTreeMap<(usize, usize, u64), u64>,
+	/// (node, chan) -> has the initial persist (persist_new_channel) been seen / completed
+	initial_done: BTreeMap<(usize, usize), bool>,
+	keys: BTreeMap<(u8, [u8; 32]), (usize, usize)>,
+	last_signed_cp: BTreeMap<(usize, usize), u64>,
+	last_released: BTreeMap<(usize, usize), u64>,
+	/// by temporary knowledge: funding txid -> (node, chan)
+	pub check_initial: bool,
+}
+
+impl PersistOrderOracle {
+	pub fn new(w: &World, chans: Vec<ChanInfo>) -> Self {
+		let mut o = PersistOrderOracle {
+			chans,
+			last_id: BTreeMap::new(),
+			outstanding: BTreeMap::new(),
+			cp_commit_update: BTreeMap::new(),
+			holder_commit_update: BTreeMap::new(),
+			preimage_update: BTreeMap::new(),
+			secret_update: BTreeMap::new(),
+			initial_done: BTreeMap::new(),
+			keys: BTreeMap::new(),
+			last_signed_cp: BTreeMap::new(),
+			last_released: BTreeMap::new(),
+			check_initial: false,
+		};
+		let setup: Vec<Obs> = w.obs.clone();
+		let _ = o.scan(&setup, true);
+		o
+	}
+	fn side(&self, ci: usize, node: usize) -> Option<usize> {
+		self.chans[ci].nodes.iter().position(|n| *n == node)
+	}
+	fn chan_idx(&self, cid: &ChannelId) -> Option<usize> {
+		self.chans.iter().position(|c| c.cid == *cid)
+	}
+	fn fail(o: &str, d: String) -> Failure {
+		Failure::new(o, d)
+	}
+	fn is_complete(&self, node: usize, ci: usize, id: u64) -> bool {
+		match self.outstanding.get(&(node, ci)) {
+			Some(v) => !v.iter().any(|x| *x <= id),
+			None => true,
+		}
+	}
+
+	fn scan(&mut self, obs: &[Obs], setup: bool) -> Result<(), Failure> {
+		for o in obs {
+			match o {
+				Obs::Persist { node, rec } => {
+					let ci = match self.chan_idx(&rec.chan) {
+						Some(c) => c,
+						None => continue,
+					};
+					let key = (*node, ci);
+					if rec.new_channel {
+						self.initial_done.insert(key, !rec.in_progress);
+						if rec.in_progress {
+							self.outstanding.entry(key).or_default().push(rec.monitor_update_id);
+							crate::runner::witness("c09-initial-persist-in-progress");
+						}
+						self.last_id.entry(key).or_insert(rec.monitor_update_id);
+						continue;
+					}
+					let uid = match rec.update_id {
+						Some(u) => u,
+						None => continue, // chain-sync write
+					};
+					if let Some(last) = self.last_id.get(&key) {
+						if uid != *last + 1 {
+							return Err(Self::fail(
+								"update-id-order",
+								format!("node {} chan {}: update id {} handed to Persist after {}", node, ci, uid, last),
+							));
+						}
+					}
+					self.last_id.insert(key, uid);
+					if rec.in_progress {
+						self.outstanding.entry(key).or_default().push(uid);
+						if !setup {
+							crate::runner::witness("c09-update-in-progress");
+							if self.outstanding[&key].len() > 1 {
+								crate::runner::witness("c09-two-updates-outstanding");
+							}
+						}
+					}
+					for st in rec.steps.iter() {
+						match st.name {
+							"LatestCounterpartyCommitmentTXInfo" | "LatestCounterpartyCommitment" => {
+								if let Some(n) = st.number {
+									self.cp_commit_update.insert((*node, ci, n), uid);
+								}
+							},
+							"LatestHolderCommitmentTXInfo" | "LatestHolderCommitment" => {
+								if let Some(n) = st.number {
+									self.holder_commit_update.insert((*node, ci, n), uid);
+								}
+							},
+							"PaymentPreimage" => {
+								if let Some(p) = st.preimage {
+									self.preimage_update.entry((*node, ci, p)).or_insert(uid);
+								}
+							},
+							"CommitmentSecret" => {
+								if let Some(n) = st.number {
+									self.secret_update.insert((*node, ci, n), uid);
+								}
+							},
+							_ => {},
+						}
+					}
+				},
+				Obs::Completed { node, chan, id } => {
+					if let Some(ci) = self.chan_idx(chan) {
+						if let Some(v) = self.outstanding.get_mut(&(*node, ci)) {
+							v.retain(|x| x != id);
+						}
+						if self.initial_done.get(&(*node, ci)) == Some(&false) {
+							self.initial_done.insert((*node, ci), true);
+						}
+					}
+				},
+				Obs::Restarted { node } => {
+					// in-flight updates are replayed with their original ids after a restart
+					let keys: Vec<(usize, usize)> = self.last_id.keys().filter(|k| k.0 == *node).cloned().collect();
+					for k in keys {
+						self.last_id.remove(&k);
+						self.outstanding.remove(&k);
+					}
+				},
+				Obs::Sig(SigEv::SignCounterpartyCommitment { node, keys_id, info }) => {
+					let n = (*node - b'A') as usize;
+					if !self.keys.contains_key(&(*node, *keys_id)) {
+						if let Some(fo) = info.funding_outpoint {
+							for ci in 0..self.chans.len() {
+								if self.chans[ci].funding == Some(fo) && self.side(ci, n).is_some() {
+									self.keys.insert((*node, *keys_id), (n, ci));
+								}
+							}
+						}
+					}
+					if let Some(k) = self.keys.get(&(*node, *keys_id)) {
+						self.last_signed_cp.insert(*k, info.number);
+					}
+				},
+				Obs::Sig(SigEv::ReleaseSecret { node, keys_id, idx }) => {
+					if let Some(k) = self.keys.get(&(*node, *keys_id)) {
+						self.last_released.insert(*k, *idx);
+					}
+				},
+				Obs::Sent { from, wire, .. } => {
+					if setup && !self.check_initial {
+						continue;
+					}
+					let cid = match wire.channel_id() {
+						Some(c) => c,
+						None => continue,
+					};
+					let ci = match self.chan_idx(&cid) {
+						Some(c) => c,
+						None => continue,
+					};
+					let key = (*from, ci);
+					let outs = self.outstanding.get(&key).cloned().unwrap_or_default();
+					match wire {
+						Wire::Commit(_) => {
+							if !outs.is_empty() {
+								return Err(Self::fail(
+									"freeze-while-outstanding",
+									format!("node {} sent commitment_signed on chan {} while monitor updates {:?} are outstanding", from, ci, outs),
+								));
+							}
+							if let Some(m) = self.last_signed_cp.get(&key) {
+								match self.cp_commit_update.get(&(*from, ci, *m)) {
+									Some(uid) => {
+										if !self.is_complete(*from, ci, *uid) {
+											return Err(Self::fail("release-before-durable", format!("commitment_signed for counterparty commitment {} sent before update {} completed", INITIAL_COMMITMENT_NUMBER - m, uid)));
+										}
+									},
+									None => {
+										if *m != INITIAL_COMMITMENT_NUMBER {
+											return Err(Self::fail(
+												"release-before-durable",
+												format!("node {} sent commitment_signed for counterparty commitment #{} but no monitor update carrying it was handed to Persist", from, INITIAL_COMMITMENT_NUMBER - m),
+											));
+										}
+									},
+								}
+							}
+							crate::runner::witness("c09-commitment-signed-checked");
+						},
+						Wire::Raa(_) => {
+							if !outs.is_empty() {
+								return Err(Self::fail(
+									"freeze-while-outstanding",
+									format!("node {} sent revoke_and_ack on chan {} while monitor updates {:?} are outstanding", from, ci, outs),
+								));
+							}
+							if let Some(idx) = self.last_released.get(&key) {
+								match self.holder_commit_update.get(&(*from, ci, idx - 1)) {
+									Some(uid) => {
+										if !self.is_complete(*from, ci, *uid) {
+											return Err(Self::fail("release-before-durable", format!("revoke_and_ack sent before update {} completed", uid)));
+										}
+									},
+									None => {
+										return Err(Self::fail(
+											"release-before-durable",
+											format!("node {} revoked commitment #{} but no monitor update carrying holder commitment #{} was handed to Persist", from, INITIAL_COMMITMENT_NUMBER - idx, INITIAL_COMMITMENT_NUMBER - (idx - 1)),
+										))
+									},
+								}
+							}
+							crate::runner::witness("c09-revoke-and-ack-checked");
+						},
+						Wire::ChannelReady(_) => {
+							if self.initial_done.get(&key) == Some(&false) {
+								return Err(Self::fail("release-before-durable", format!("node {} sent channel_ready before the initial monitor persist completed", from)));
+							}
+						},
+						Wire::Fulfill(m) => {
+							// an upstream claim requires the preimage to be durable in this channel's monitor
+							match self.preimage_update.get(&(*from, ci, m.payment_preimage.0)) {
+								Some(uid) => {
+									if !self.is_complete(*from, ci, *uid) {
+										return Err(Self::fail(
+											"release-before-durable",
+											format!("node {} sent update_fulfill_htlc on chan {} before preimage update {} completed", from, ci, uid),
+										));
+									}
+									crate::runner::witness("c09-fulfill-checked");
+								},
+								None => {
+									return Err(Self::fail(
+										"release-before-durable",
+										format!("node {} sent update_fulfill_htlc on chan {} but no PaymentPreimage update was handed to Persist for it", from, ci),
+									))
+								},
+							}
+						},
+						Wire::Add(_) => {
+							// forwarding (or sending) an HTLC never happens while this channel has an outstanding update,
+							// because the add is accompanied by a commitment_signed (checked above).
+						},
+						_ => {},
+					}
+				},
+				Obs::Broadcast { node, b } => {
+					if b.kinds.iter().any(|k| k == "Funding") {
+						for ci in 0..self.chans.len() {
+							if self.side(ci, *node).is_some() && self.initial_done.get(&(*node, ci)) == Some(&false) {
+								return Err(Self::fail("release-before-durable", format!("node {} broadcast the funding transaction before the initial monitor persist completed", node)));
+							}
+						}
+					}
+				},
+				_ => {},
+			}
+		}
+		Ok(())
+	}
+}
+
+impl Oracle for PersistOrderOracle {
+	fn name(&self) -> &'static str {
+		"persist-order"
+	}
+	fn observe(&mut self, _w: &World, obs: &[Obs]) -> Result<(), Failure> {
+		self.scan(obs, false)
+	}
+	fn at_end(&mut self, _w: &mut World) -> Result<String, Failure> {
+		for (k, v) in self.outstanding.iter() {
+			if !v.is_empty() {
+				return Err(Self::fail("harness", format!("updates {:?} of node {} chan {} never completed by the harness", v, k.0, k.1)));
+			}
+		}
+		Ok(String::new())
+	}
+}
+
+// -------------------------------------------------------------------------------------------------
+/// Every payment reaches the terminal outcome its recipient chose (used as the differential end
+/// state for C09 and as a building block of C03).
+pub struct PaymentsResolveOracle;
+impl Oracle for PaymentsResolveOracle {
+	fn name(&self) -> &'static str {
+		"payments-resolve"
+	}
+	fn observe(&mut self, _w: &World, _obs: &[Obs]) -> Result<(), Failure> {
+		Ok(())
+	}
+	fn at_end(&mut self, w: &mut World) -> Result<String, Failure> {
+		use crate::world::ClaimPolicy;
+		let mut label = String::new();
+		for p in w.payments.iter() {
+			if !p.send_ok {
+				label.push('x');
+				continue;
+			}
+			let sent = w.obs.iter().filter(|o| matches!(o, Obs::Event { ev: Event::PaymentSent { payment_hash, .. }, .. } if *payment_hash == p.hash)).count();
+			let failed = w.obs.iter().filter(|o| matches!(o, Obs::Event { ev: Event::PaymentFailed { payment_hash: Some(h), .. }, .. } if *h == p.hash)).count();
+			let claimed = w.obs.iter().filter(|o| matches!(o, Obs::Event { ev: Event::PaymentClaimed { payment_hash, .. }, .. } if *payment_hash == p.hash)).count();
+			let fail = |d: String| Failure::new("payments-resolve", d);
+			match p.policy {
+				ClaimPolicy::Claim => {
+					if p.claimed_by_recipient && (sent != 1 || failed != 0 || claimed != 1) {
+						return Err(fail(format!("payment {} claimed by recipient: PaymentSent x{}, PaymentFailed x{}, PaymentClaimed x{}", p.amount_msat, sent, failed, claimed)));
+					}
+					if !p.claimed_by_recipient && sent != 0 {
+						return Err(fail("PaymentSent for a payment the recipient never claimed".into()));
+					}
+					label.push(if sent == 1 { 'S' } else if failed == 1 { 'F' } else { '?' });
+				},
+				ClaimPolicy::Fail => {
+					if sent != 0 || (p.failed_by_recipient && failed != 1) {
+						return Err(fail(format!("payment {} failed by recipient: PaymentSent x{}, PaymentFailed x{}", p.amount_msat, sent, failed)));
+					}
+					label.push(if failed == 1 { 'F' } else { '?' });
+				},
+				ClaimPolicy::Hold => {
+					if sent != 0 {
+						return Err(fail("PaymentSent for a held payment".into()));
+					}
+					label.push('H');
+				},
+			}
 		}
 		Ok(label)
 	}
